@@ -59,6 +59,10 @@ func vC06FindFuncByName(name string) (uintptr, error) {
 		return verifFuncCode((*vT06).getAll), nil
 	case "github.com/tencent/goom.(*vU06).Get":
 		return verifFuncCode((*vU06).Get), nil
+	case "github.com/tencent/goom/internal/zzverifc06/v1/model.Account.fee":
+		return verifFuncCode(vC06OtherFee()), nil
+	case "github.com/tencent/goom.Account.fee":
+		return verifFuncCode(Account.fee), nil
 	case "other/pkg.(*vT06).get":
 		return verifFuncCode(vOther06get), nil
 	}
